@@ -42,7 +42,7 @@ pub fn gen_encoded(rng: &mut Rng, small: bool) -> Encoded {
 /// one random input from the mixed families
 pub fn random_input(ctx: &mut Ctx) -> PIn {
     let rng = &mut ctx.rng;
-    match rng.below(20) {
+    match rng.below(21) {
         0 | 1 => {
             let e = gen_encoded(rng, false);
             PIn {
@@ -122,6 +122,40 @@ pub fn random_input(ctx: &mut Ctx) -> PIn {
                 what: format!("splice {}|{}", ca, cb),
             }
         }
+        8 => {
+            // two independent faults: a stale checksum in one message plus a structural fault or a truncation
+            // in a LATER message
+            let e = gen_encoded(rng, true);
+            let nm = e.map.msgs.len();
+            if nm < 2 {
+                return from_c(corrupt::random_corruption(&e, rng));
+            }
+            let i = rng.below(nm - 1);
+            let j = rng.range(i + 1, nm - 1);
+            let mi = e.map.msgs[i];
+            let mj = e.map.msgs[j];
+            let mut b = e.bytes.clone();
+            if mi.crc_size == 3 {
+                b[mi.crc_off + 1 + rng.below(2)] ^= 1 << rng.below(8);
+            } else {
+                b[mi.crc_off + 1] ^= 1 << rng.below(8);
+            }
+            match rng.below(4) {
+                0 => b.truncate(rng.range(mj.start, mj.end.saturating_sub(1))),
+                1 => b[mj.end_off] = 0x01,
+                2 => {
+                    let k = rng.range(mj.start, mj.crc_off.saturating_sub(1).max(mj.start));
+                    b[k] ^= 1 << rng.below(8);
+                }
+                _ => b[mj.start] = *rng.pick(&[0x75u8, 0x77, 0x72, 0x06]),
+            }
+            PIn {
+                bytes: b,
+                family: "stale-crc+later-fault",
+                crc_fixed: false,
+                what: format!("stale crc in message {} + fault in message {}", i, j),
+            }
+        }
         6 | 7 => {
             let e = gen_encoded(rng, true);
             let faults = corrupt::structural_faults(&e, rng);
@@ -131,7 +165,7 @@ pub fn random_input(ctx: &mut Ctx) -> PIn {
             let k = rng.below(faults.len());
             from_c(faults.into_iter().nth(k).unwrap())
         }
-        _ => {
+        9..=20 | _ => {
             let small = rng_small(rng);
             let e = gen_encoded(rng, small);
             from_c(corrupt::random_corruption(&e, rng))
